@@ -3,7 +3,8 @@ C16 — Saving to an older UFO format keeps everything that format can express.
 
 Theorems about M-Conv: the conversion functions (`DefconModel/Conv.lean`) and the format branches
 of `Font.save` / `Font(path)` (`DefconModel/ConvSave.lean`).  Helper lemmas are in
-`Lemmas/Conv.lean` and `Lemmas/ConvSave.lean`, hypotheses and the `Preserved` relation in
+`Lemmas/Conv.lean`, `Lemmas/ConvSave.lean`, `Lemmas/ConvSaveFail.lean` and `Lemmas/ConvLayers.lean` (the
+operations on the layer set, histories), hypotheses, the `Preserved` relation and `applyFull` in
 `Spec/Conv.lean` and `Spec/ConvSave.lean`.
 
 `find` is the header expression (a parameter); `featureHeader` is the executable specification of
